@@ -299,10 +299,17 @@ func (g *qgen) clause(first bool, o qopts) QClause {
 			c.S = Tm{K: "b", B: g.fresh("node")}
 		}
 	}
+	// an AS alias may name a binding that an earlier clause has bound already
+	aliasFor := func(kinds ...string) string {
+		if b := g.reuse(kinds...); b != "" && !first && r.Chance(0.3) {
+			return b
+		}
+		return g.fresh(kinds[0])
+	}
 	if r.Chance(o.aliases) {
 		switch r.Intn(3) {
 		case 0:
-			c.S.As = g.fresh("node")
+			c.S.As = aliasFor("node", "obj")
 		case 1:
 			c.S.Ty = g.fresh("str")
 		case 2:
@@ -393,7 +400,7 @@ func (g *qgen) clause(first bool, o qopts) QClause {
 		}
 		switch x := r.Intn(4); {
 		case x == 0:
-			c.O.As = g.fresh("obj")
+			c.O.As = aliasFor("obj", "node")
 		case x == 1 && !isLit && !isPred:
 			c.O.Ty = g.fresh("str")
 		case x == 2 && !isLit && !o.clean:
